@@ -656,6 +656,9 @@ func (r *runner) finalChecks() {
 	if r.has("accounts") {
 		r.addV(checkAccounts(r, views)...)
 	}
+	if r.has("feature-equivalence") {
+		r.addV(checkFeatureEquivalence(r, views)...)
+	}
 	if r.has("no-5xx-without-fault") {
 		r.addV(checkNo5xx(r)...)
 	}
